@@ -249,6 +249,13 @@ class WorldT6 : public World
                 Problem p0 = build_problem(plan.at("problem"), plan.at("config"));
                 Session s0(p0, 0, false);
                 EventOutcome eo = s0.run_event(target, budget);
+                if (!eo.completed && eo.budget_exhausted && !eo.threw)
+                {
+                    // cost cap reached while the event was still progressing:
+                    // nothing to judge (see Oracles.cc on liveness)
+                    rr.count("skipped_step_budget_exhausted");
+                    return rr;
+                }
                 if (!eo.completed)
                 {
                     rr.violate("C06",
@@ -316,6 +323,11 @@ class WorldT6 : public World
                 {
                     EventOutcome eo = s1.run_event(op, budget);
                     rr.fault("prior_event");
+                    if (!eo.completed && eo.budget_exhausted && !eo.threw)
+                    {
+                        rr.count("skipped_step_budget_exhausted");
+                        return rr;
+                    }
                     if (!eo.completed)
                     {
                         // history event failed without an injected fault
@@ -385,6 +397,11 @@ class WorldT6 : public World
             clear_tallies(p1);
             std::size_t first = s1.history().frames.size();
             EventOutcome eo = s1.run_event(target, budget);
+            if (!eo.completed && eo.budget_exhausted && !eo.threw)
+            {
+                rr.count("skipped_step_budget_exhausted");
+                return rr;
+            }
             if (!eo.completed)
             {
                 rr.violate("C06",
